@@ -194,6 +194,12 @@ pub struct RxCfg {
     /// wire without the socket knowing); signatures get the suffix /burst-limited-device
     pub burst: Option<usize>,
     pub mtu: usize,
+    /// (stream offset, length) of a data segment that reaches the socket in the middle of the
+    /// handshake, BEFORE the socket's own SYN-ACK (server) / first ACK (client) has left the
+    /// host (the frame was already queued behind the peer's SYN / SYN-ACK when poll ran): the
+    /// peer guessed the ISS. No window (server) or only the SYN's window (client) has been on
+    /// the wire, so whatever lies beyond that must not be accepted
+    pub early: Option<(usize, usize)>,
 }
 
 #[derive(Clone, Debug, PartialEq)]
@@ -239,6 +245,11 @@ impl Rx {
                 continue;
             }
             if !t.has(wc::TCP_ACK) {
+                // an active opener's SYN: its (never scaled) window field is the first window
+                // on the wire, counted from the start of the peer's stream
+                if t.has(wc::TCP_SYN) && (t.win as i64) > self.e_off {
+                    self.e_off = t.win as i64;
+                }
                 continue;
             }
             let shift = if t.has(wc::TCP_SYN) { 0 } else { self.shift };
@@ -343,6 +354,9 @@ impl Harness for Rx {
             }
         }
         let mut frames;
+        let mut early_frames: Vec<Vec<u8>> = vec![];
+        let mut post: Vec<Vec<u8>> = vec![];
+        let mut guess: Option<u32> = None;
         let iss;
         if cfg.server {
             w.sock().listen(LPORT).unwrap();
@@ -360,12 +374,27 @@ impl Harness for Rx {
             }
             let syn_payload: Vec<u8> = (0..cfg.syn_data).map(stream_byte).collect();
             frames = w.ingress_single(build_seg(p, None, wc::TCP_SYN, 1000, &ws_opt, &syn_payload));
-            frames.extend(w.egress());
-            let sa = frames.iter().filter_map(|f| parse_out(f)).find(|t| t.has(wc::TCP_SYN)).expect("SYN-ACK");
-            iss = sa.seq;
+            if let Some((eo, el)) = cfg.early {
+                // the ISS is learned from a twin (same seed, same history): the peer "guesses" it
+                let mut twin = One::with_mtu_burst(cfg.rx, 64, 0x77, cfg.mtu, cfg.burst);
+                twin.sock().listen(LPORT).unwrap();
+                let mut tf = twin.ingress_single(build_seg(p, None, wc::TCP_SYN, 1000, &ws_opt, &syn_payload));
+                tf.extend(twin.egress());
+                let g = tf.iter().filter_map(|f| parse_out(f)).find(|t| t.has(wc::TCP_SYN)).expect("twin SYN-ACK").seq;
+                guess = Some(g);
+                let payload: Vec<u8> = (eo..eo + el).map(stream_byte).collect();
+                early_frames = w.ingress_single(build_seg(p.wrapping_add(1 + eo as u32), Some(g.wrapping_add(1)), wc::TCP_PSH, 1000, &[], &payload));
+            }
+            post.extend(w.egress());
+            // (a socket that took the early segment for the end of the handshake never sends
+            // its SYN-ACK: go on with the guessed ISS, the clauses below judge what it accepted)
+            iss = match post.iter().filter_map(|f| parse_out(f)).find(|t| t.has(wc::TCP_SYN)) {
+                Some(sa) => sa.seq,
+                None => guess.expect("SYN-ACK"),
+            };
             let f2 = w.ingress_single(build_seg(p.wrapping_add(1), Some(iss.wrapping_add(1)), 0, 1000, &[], &[]));
-            frames.extend(f2);
-            frames.extend(w.egress());
+            post.extend(f2);
+            post.extend(w.egress());
         } else {
             assert!(w.connect());
             frames = w.egress();
@@ -373,9 +402,13 @@ impl Harness for Rx {
             iss = syn.seq;
             let f2 = w.ingress_single(build_seg(p, Some(iss.wrapping_add(1)), wc::TCP_SYN, 1000, &ws_opt, &[]));
             frames.extend(f2);
-            frames.extend(w.egress());
+            if let Some((eo, el)) = cfg.early {
+                let payload: Vec<u8> = (eo..eo + el).map(stream_byte).collect();
+                early_frames = w.ingress_single(build_seg(p.wrapping_add(1 + eo as u32), Some(iss.wrapping_add(1)), wc::TCP_PSH, 1000, &[], &payload));
+            }
+            post.extend(w.egress());
         }
-        let own_ws = frames.iter().filter_map(|f| parse_out(f)).find(|t| t.has(wc::TCP_SYN)).and_then(|t| t.wscale);
+        let own_ws = frames.iter().chain(post.iter()).filter_map(|f| parse_out(f)).find(|t| t.has(wc::TCP_SYN)).and_then(|t| t.wscale);
         let shift = if cfg.wscale { own_ws.unwrap_or(0) as u32 } else { 0 };
         let mut h = Rx {
             cfg: cfg.clone(),
@@ -398,6 +431,16 @@ impl Harness for Rx {
             h.eligible[i] = true;
         }
         h.observe(&frames);
+        if let Some((eo, el)) = cfg.early {
+            // judged against what had been on the wire when the early segment was sent
+            for i in eo..(eo + el).min(cfg.l) {
+                if (i as i64) < h.e_off {
+                    h.eligible[i] = true;
+                }
+            }
+        }
+        h.observe(&early_frames);
+        h.observe(&post);
         if h.w.state() != State::Established {
             h.pending.push(Viol::new("MACHINERY/handshake-failed", format!("state {}", h.w.state())));
         }
@@ -423,6 +466,16 @@ impl Harness for Rx {
                 let n = n.min(l - o);
                 if seen.insert(n) {
                     v.push((RxEv::Seg { o: o as usize, len: n as usize }, 0));
+                }
+            }
+        }
+        if let Some((eo, _)) = self.cfg.early {
+            // a filler that ends exactly where the early segment began: if the socket kept that
+            // segment, its acknowledgment now jumps over octets it was never sent in window
+            if r >= 0 && (r as usize) < eo {
+                let ev = RxEv::Seg { o: r as usize, len: (eo - r as usize).min(60000) };
+                if !v.iter().any(|(e, _)| *e == ev) {
+                    v.push((ev, 0));
                 }
             }
         }
@@ -523,7 +576,7 @@ impl Harness for Rx {
 pub fn rx_configs(tier: Tier) -> Vec<(RxCfg, usize)> {
     let mut v = vec![];
     let (d_small, d_big) = if tier == Tier::Quick { (6, 3) } else { (9, 4) };
-    let base = RxCfg { name: "srv", rx: 4, l: 6, peer_isn: 0xffff_fffd, server: true, wscale: false, peer_ws: 0, reuse: false, stray: false, bp: false, syn_data: 0, burst: None, mtu: 1500 };
+    let base = RxCfg { name: "srv", rx: 4, l: 6, peer_isn: 0xffff_fffd, server: true, wscale: false, peer_ws: 0, reuse: false, stray: false, bp: false, syn_data: 0, burst: None, mtu: 1500, early: None };
     for &(rx, l) in &[(2usize, 6usize), (3, 6), (4, 6), (8, 10), (64, 10)] {
         v.push((RxCfg { rx, l, ..base.clone() }, d_small));
     }
@@ -540,6 +593,13 @@ pub fn rx_configs(tier: Tier) -> Vec<(RxCfg, usize)> {
     v.push((RxCfg { name: "burst1-rx1200-mtu576", rx: 1200, l: 1300, burst: Some(1), mtu: 576, ..base.clone() }, d_small.min(4)));
     // the SYN carries data
     v.push((RxCfg { name: "data-on-syn", rx: 8, l: 10, syn_data: 3, ..base.clone() }, d_small));
+    // a data segment overtakes the socket's own SYN-ACK / first ACK (queued behind the peer's
+    // SYN / SYN-ACK in the same poll)
+    v.push((RxCfg { name: "early-data-srv", rx: 8, l: 10, early: Some((0, 3)), ..base.clone() }, d_small));
+    v.push((RxCfg { name: "early-data-srv-ooo", rx: 8, l: 10, early: Some((2, 3)), ..base.clone() }, d_small));
+    v.push((RxCfg { name: "early-data-cli", rx: 8, l: 10, early: Some((0, 3)), server: false, peer_isn: 0x7fff_fffd, ..base.clone() }, d_small));
+    v.push((RxCfg { name: "early-data-cli-wscale-beyond-syn-window", rx: 70000, l: 70010, peer_isn: 0x7fff_0000, wscale: true, server: false, early: Some((66000, 10)), ..base.clone() }, d_big));
+    v.push((RxCfg { name: "early-data-srv-wscale", rx: 70000, l: 70010, peer_isn: 0x7fff_0000, wscale: true, early: Some((66000, 10)), ..base.clone() }, d_big));
     // stray FINs / data reach the listening socket before the handshake
     v.push((RxCfg { name: "stray-before-syn", rx: 8, l: 6, stray: true, ..base.clone() }, d_small));
     // socket objects that served a connection before
